@@ -9,6 +9,7 @@ from ..srcmodel import unparse, norm, walk_no_nested, calls_in, fold_const
 from .common import is_method_call, cfg_of, get_kw, recv_of, name_defs, node_obj, fde_guard, facts_at, find_stmt_node, parent_chain, F3
 from . import c07
 from . import buildrules
+from . import unitrules
 from . import tr
 from .c10 import _as
 
@@ -25,6 +26,7 @@ DECIDED = [
     'R7: StreamNode premerge flattens its builder before taking stages[0] and returns that document\'s own premerge result.',
     'R8: every document added by add_source is a fresh parse result of that call (or a deep copy): stage nodes are never shared between include sites.',
     'R9: the builder pipeline evaluated on tables of stage answers (finite-domain evaluator): preprocess asks every original stage once, in order, splices streams in place and replaces changed nodes; flatten adopts the pre-merge result of the first stage, checks its new paths, folds left and rejects non-mapping stages; build = None when empty, else preprocess all, flatten, the remaining stage.',
+    "R10: Builder.get_subbuilder hands out a sub-builder only while a stage is preprocessed (RuntimeError otherwise); SubBuilder records requester, parent and the parent's current stage.",
 ]
 UNDECIDED = ['equality of the four ways of splitting a document sequence as data;', 'file-system semantics of normpath/join;', 'abs(...) reference point arithmetic.']
 FLAGS = ('delete', 'allow_new', 'safe', 'priority')
@@ -414,6 +416,7 @@ def check(repo, run, tier):
     g(r7, repo, run)
     g(r8, repo, run)
     g(buildrules.builder_pipeline, repo, run, 'C06.R9')
+    g(unitrules.subbuilder_request, repo, run, 'C06.R10')
     g.done()
 
 
@@ -431,6 +434,7 @@ def merge_two(r):
 
 def mutants(repo):
     return [
+        Mutant('subbuilder-outside-preprocessing', lambda r: in_func(r, 'Builder.get_subbuilder', "if self._current_stage is None:", "if self._current_stage is not None:"), ['C06.R10']),
         Mutant('build-skips-preprocess', lambda r: in_func(r, 'Builder.build', "        self.preprocess()\n        self.flatten()", "        self.flatten()"), ['C06.R9']),
         Mutant('preprocess-keeps-old-stage', lambda r: in_func(r, 'Builder.preprocess', "if new_stage is not stage:", "if new_stage is stage:"), ['C06.R9', 'C06.R1']),
         Mutant('flatten-ignores-premerge-result', lambda r: in_func(r, 'Builder.flatten', "if new_stage is not self.stages[0]:", "if new_stage is self.stages[0]:"), ['C06.R9']),
